@@ -121,6 +121,11 @@ func (b *Built) applyProps() {
 			b.T.SetProperty(p.key(), p.val())
 		case "column":
 			if p.Col <= b.T.NColumns() {
+				if p.Key == "column.Name" {
+					// the column's exported Name field: bookkeeping of the core model which no renderer is documented to read
+					b.T.Column(p.Col).Name = p.Val
+					continue
+				}
 				b.T.Column(p.Col).SetProperty(p.key(), p.val())
 			}
 		case "row":
@@ -499,12 +504,17 @@ func (r *R) noise(s *TableSpec, which int) []PropSpec {
 	if which&NoiseAlign != 0 {
 		pool = append(pool, kv{"align.PropertyType", "align.Left"}, kv{"align.PropertyType", "align.Center"}, kv{"align.PropertyType", "align.Right"}, kv{"align.PropertyType", "align.Right"})
 	}
-	pool = append(pool, kv{"skipable", "true"}, kv{"type", "align.Right"}, kv{"int 0", "whatever"})
+	pool = append(pool, kv{"skipable", "true"}, kv{"type", "align.Right"}, kv{"int 0", "whatever"}, kv{"column.Name", "a name given to the column"})
 	ncols := s.NCols()
 	var out []PropSpec
 	for n := r.Range(1, 3); n > 0; n-- {
 		c := pool[r.Intn(len(pool))]
 		p := PropSpec{Key: c.k, Val: c.v, Owner: "column"}
+		if c.k == "column.Name" {
+			p.Col = r.Range(0, ncols)
+			out = append(out, p)
+			continue
+		}
 		switch r.Intn(10) {
 		case 0:
 			p.Owner = "table"
